@@ -335,13 +335,25 @@ impl C06 {
 
 impl Check for C06 {
     fn families(&self) -> Vec<(String, u64)> {
-        vec![("transitions".into(), self.m.transitions.len() as u64)]
+        vec![("transitions".into(), self.m.transitions.len() as u64), ("thresholds".into(), super::scale::programs().len() as u64)]
     }
-    fn describe(&self, _fam: usize, idx: u64) -> Value {
+    fn describe(&self, fam: usize, idx: u64) -> Value {
+        if fam == 1 {
+            return json!({"text": super::scale::programs()[idx as usize]});
+        }
         let (text, trace) = self.program(idx);
         json!({"text": text, "history": trace})
     }
-    fn run_case(&self, _fam: usize, idx: u64, ctx: &mut Ctx) {
+    fn run_case(&self, fam: usize, idx: u64, ctx: &mut Ctx) {
+        if fam == 1 {
+            let text = super::scale::programs()[idx as usize].clone();
+            ctx.case_text(&text);
+            let opts = JudgeOpts { limits: Limits { steps: 400_000, depth: 150 }, ..Default::default() };
+            if let (Judged::Agree | Judged::Violation, _) = judge(&text, b"", &opts, ctx) {
+                ctx.nontrivial();
+            }
+            return;
+        }
         let (text, _) = self.program(idx);
         ctx.case_text(&text);
         let (si, ai) = self.m.transitions[idx as usize];
